@@ -557,3 +557,69 @@ func classifyC10(c c10Case) ([]string, bool) {
 func TestC10_CleanRewrite(t *testing.T) {
 	prop[c10Case]{property: "C10", gen: genC10, check: checkC10, classify: classifyC10}.run(t)
 }
+
+// ---- many ordinals: files whose entry count crosses a digit boundary (9/10, 99/100, 999/1000) --------------------
+
+type manyOrdCase struct {
+	N     int  `json:"live_ordinals"`  // one test with calls 1..N
+	Stale int  `json:"stale_ordinals"` // plus entries N+1..N+Stale that nobody addresses
+	Clean bool `json:"clean_mode"`     // UPDATE_SNAPS=clean (stale entries are removed) or default (reported only)
+	Step  int  `json:"shuffle_step"`   // initial order: i -> (i*Step) mod (N+Stale), Step coprime to N+Stale
+}
+
+func (m manyOrdCase) c10() c10Case {
+	total := m.N + m.Stale
+	f := cleanFile{Cfg: CfgSpec{Dir: "snaps", Filename: "f"}}
+	for i := 0; i < total; i++ {
+		k := (i*m.Step)%total + 1
+		f.Entries = append(f.Entries, cleanEntry{Test: "TestMany", Ord: k, Val: strVal("value of call " + strconv.Itoa(k)), Live: k <= m.N})
+	}
+	for i := total - 1; i >= 0; i-- {
+		f.Perm2 = append(f.Perm2, i)
+	}
+	c := c10Case{Files: []cleanFile{f}, Sort: true, Count: 1}
+	if m.Clean {
+		c.Mode = Mode{Update: "clean"}
+	}
+	return c
+}
+
+func gcd(a, b int) int {
+	for b != 0 {
+		a, b = b, a%b
+	}
+	return a
+}
+
+func TestC10_ManyOrdinals(t *testing.T) {
+	nshards, _ := strconv.Atoi(getenv("VERIF_NSHARDS", "1"))
+	shard, _ := strconv.Atoi(getenv("VERIF_SHARD", "0"))
+	ns := []int{9, 10, 11, 99, 100, 101}
+	if tierThorough() {
+		ns = append(ns, 999, 1000, 1001)
+	}
+	p := prop[manyOrdCase]{property: "C10", check: func(m manyOrdCase) error { return checkC10(m.c10()) },
+		classify: func(m manyOrdCase) ([]string, bool) {
+			return []string{fmt.Sprintf("ordinals_%d", m.N)}, m.N >= 10
+		}}
+	p.enumerate(t, func(yield func(manyOrdCase) bool) {
+		i := 0
+		for _, n := range ns {
+			for _, stale := range []int{0, 2} {
+				for _, clean := range []bool{false, true} {
+					i++
+					if i%nshards != shard {
+						continue
+					}
+					step := 7
+					for gcd(step, n+stale) != 1 {
+						step++
+					}
+					if !yield(manyOrdCase{N: n, Stale: stale, Clean: clean, Step: step}) {
+						return
+					}
+				}
+			}
+		}
+	})
+}
